@@ -83,10 +83,17 @@ func forms(op refpkg.Op, step int, cur int) (out []string) {
 			out = append(out, fmt.Sprintf("(%s%s-package :%s)", cl, op.K, q))
 		}
 	case "export", "unexport":
+		name := q1 + op.N + q2
+		switch step % 5 {
+		case 3:
+			name = "'(" + op.N + ")" // a list of symbols
+		case 4:
+			name = "\"" + op.N + "\"" // a string designator
+		}
 		if op.Arg {
-			out = append(out, fmt.Sprintf("(%s%s %s%s%s :%s)", cl, op.K, q1, op.N, q2, a))
+			out = append(out, fmt.Sprintf("(%s%s %s :%s)", cl, op.K, name, a))
 		} else {
-			out = append(out, fmt.Sprintf("(%s%s %s%s%s)", cl, op.K, q1, op.N, q2))
+			out = append(out, fmt.Sprintf("(%s%s %s)", cl, op.K, name))
 		}
 	case "setq":
 		out = append(out, fmt.Sprintf("(%ssetq %s %q)", cl, op.N, token(op, step)))
